@@ -70,7 +70,7 @@ except ImportError:
 
 from werkzeug.utils import get_content_type
 from werkzeug.debug import DebuggedApplication
-from werkzeug.wrappers import BaseResponse
+from werkzeug.wrappers import BaseResponse, Response
 from boltons.tbutils import ExceptionInfo, ContextualExceptionInfo
 from glom import glom, T
 
@@ -110,7 +110,7 @@ MIME_SUPPORT_MAP = {'text/html': 'html',
 DEFAULT_MIME = 'text/plain'
 
 
-class HTTPException(BaseResponse, Exception):
+class HTTPException(Response, Exception):
     """The base :class:`Exception` for all default HTTP errors in this
     module, the HTTPException also inherits from
     :class:`BaseResponse`, making instances of it and its subtypes
